@@ -8,16 +8,21 @@
 #define VF_MON_CLOCK vf_clock
 #define VF_MON_NO_COND /* the real ABTI_cond_wait / _broadcast are under test */
 #include "contracts/monitor_thin.h"
+/* while the caller sleeps it does not hold the mutex: other threads lock and unlock it, so whatever owner bookkeeping the
+ * caller left behind is overwritten (a recursive mutex's owner word is only meaningful to its holder) */
+#define VF_WL_WAIT_HAVOC vf_mon_owner
+#define VF_WL_WAIT_POST (vf_mon_owner == 0 || vf_mon_owner == 1)
 #include "contracts/waitlist_thin.h"
 #include <cond.c>
 
-static ABTI_cond cv;
+static ABTI_cond cv; static int vf_kind;
 static ABTI_mutex mx, mx2;
 static void setup(void)
 {
     vf_lock_held = 0;
     vf_mon_held = 1; vf_mon_owner = 1; vf_mon_mutex = &mx; /* the caller holds (and, for a recursive mutex, owns) the user mutex */
-    lp_ABTI_local = NULL;
+    /* caller: an external thread, a ULT, or a tasklet */
+    { static ABTI_xstream cxs; static ABTI_thread cth; int kind; VF_ASSUME(0 <= kind && kind <= 2); vf_kind = kind; cxs.p_thread = &cth; cth.type = (kind == 1) ? ABTI_THREAD_TYPE_YIELDABLE : 0; lp_ABTI_local = kind == 0 ? NULL : (ABTI_local *)&cxs; }
     VF_ASSUME(cv.p_waiter_mutex == NULL || cv.p_waiter_mutex == &mx || cv.p_waiter_mutex == &mx2);
     VF_ASSUME(vf_clock < 100 && vf_acquires < 100 && vf_releases < 100 && vf_wl_waits < 100 && vf_mon_locks < 100 && vf_mon_unlocks < 100 && vf_wl_signals < 100 && vf_wl_bcasts < 100);
 }
@@ -43,6 +48,7 @@ void h_cond_wait(void)
     ABTI_mutex *wm0 = cv.p_waiter_mutex;
     unsigned a0 = vf_acquires, r0 = vf_releases, u0 = vf_mon_unlocks, l0 = vf_mon_locks, w0 = vf_wl_waits;
     int r = ABT_cond_wait((ABT_cond)&cv, (ABT_mutex)&mx);
+    if (vf_kind == 2) { VF_ASSERT(r == ABT_ERR_COND && vf_lock_held == 0 && vf_acquires == a0 && vf_mon_held == 1 && vf_mon_unlocks == u0 && vf_wl_waits == w0 && cv.p_waiter_mutex == wm0, "a tasklet may not wait (1.x API): refused; mutex still held, nothing enqueued, no lock taken"); VF_REACH("cond_wait refused"); return; }
     COMMON_POST(ABT_SUCCESS, ABT_SUCCESS)
     VF_REACH("cond_wait returns");
     VF_COVER(r == ABT_SUCCESS && wm0 == NULL, "first waiter"); VF_COVER(r == ABT_ERR_INV_MUTEX, "wrong mutex");
@@ -61,7 +67,7 @@ void h_cond_timedwait(void)
 }
 void h_cond_signal_bcast(void)
 {
-    setup();
+    setup(); VF_ASSUME(vf_kind != 2); /* (a tasklet's wait is refused before the handles are looked at: unit cond_wait) */
     unsigned a0 = vf_acquires, r0 = vf_releases, s0 = vf_wl_signals, b0 = vf_wl_bcasts;
     int r = ABT_cond_signal((ABT_cond)&cv);
     VF_ASSERT(r == ABT_SUCCESS && vf_wl_signals == s0 + 1 && vf_wl_bcasts == b0 && vf_wl_which == &cv.waitlist && vf_acquires == a0 + 1 && vf_releases == r0 + 1 && vf_lock_which == &cv.lock &&
